@@ -504,11 +504,11 @@ func c16Logical(env *core.Env, c *C16Case) core.Outcome {
 			case "unparseable-source":
 				content = "package p\n\nfunc broken( {\n"
 				failing, perFile = name, true
-				wantInStderr = []string{name, "expected"}
+				wantInStderr = []string{name}
 			case "rewrite-error":
 				content = "package p\n\nfunc r() {\n\tbaz(1)\n\tfoo(2)\n}\n"
 				failing, perFile = name, true
-				wantInStderr = []string{name, "metavariable"}
+				wantInStderr = []string{name}
 			case "unparseable-result":
 				content = "package p\n\nfunc r() {\n\tif cond(v) {\n\t\tfoo(2)\n\t}\n}\n"
 				failing, perFile = name, true
@@ -546,7 +546,7 @@ func c16Logical(env *core.Env, c *C16Case) core.Outcome {
 	case "malformed-patch":
 		tree["bad.patch"] = "@@\nvar x foo\n@@\n-a\n+b\n"
 		args = []string{"-p", filepath.Join(root, "p.patch"), "-p", filepath.Join(root, "bad.patch")}
-		wantInStderr = []string{"bad.patch", "unknown metavariable type"}
+		wantInStderr = []string{"bad.patch"}
 	case "missing-patches-file":
 		args = []string{"-P", filepath.Join(root, "nolist.txt")}
 		wantInStderr = []string{"nolist.txt", "no such file or directory"}
@@ -572,6 +572,15 @@ func c16Logical(env *core.Env, c *C16Case) core.Outcome {
 	for _, w := range wantInStderr {
 		if !strings.Contains(r.stderr, w) {
 			return bad("diagnostic-incomplete", "stderr does not contain %q (path and cause must be named): %q", w, r.stderr)
+		}
+	}
+	// for failures that are not OS errors the wording of the cause is free, but there must be one:
+	// more than the path itself, and not a formatted nil
+	if len(wantInStderr) == 1 {
+		rest := strings.ReplaceAll(r.stderr, filepath.Join(root, "t", wantInStderr[0]), "")
+		rest = strings.ReplaceAll(rest, wantInStderr[0], "")
+		if len(strings.Fields(rest)) < 2 || strings.Contains(rest, "<nil>") {
+			return bad("diagnostic-incomplete", "stderr names the path but no cause: %q", r.stderr)
 		}
 	}
 	// solo results of the other files
